@@ -33,7 +33,7 @@ def mk(d):
 
 def dec_of(d):
     c = int(d["c"])
-    sign = 1 if c < 0 else 0
+    sign = 1 if c < 0 or (c == 0 and d.get("negzero")) else 0  # Decimal("-0"), what (negative) x (zero) gives
     digits = tuple(int(ch) for ch in str(abs(c)))
     return Decimal((sign, digits, d["e"]))
 
@@ -148,7 +148,7 @@ def judge(case, im, mo):
     if "ok" not in im["float_a"]:
         if want is not None:
             yield ("pred", f"float() raised {im['float_a']}")
-    elif im["float_a"]["ok"] != want:
+    elif want is None or float.fromhex(im["float_a"]["ok"]) != float.fromhex(want):  # by value: -0.0 is the float nearest to zero too
         yield ("pred", f"float() = {im['float_a']['ok']} but the nearest float is {want}", "float-double-rounding")
 
 
@@ -158,7 +158,7 @@ S = Stream("pairs", impl, line, judge, chunk=128)
 def rand_num(rng):
     kind = rng.random()
     if kind < 0.06:
-        return {"c": "0", "e": rng.choice([0, 0, -3, 2])}
+        return {"c": "0", "e": rng.choice([0, 0, -3, 2]), **({"negzero": True} if rng.random() < 0.5 else {})}
     nd = rng.choice([1, 1, 2, 3, 3, 5, 8, 13, 17, 21, 25, rng.randint(1, 25), 29, 40])
     if kind < 0.25:  # straddle a power of ten: 999…9, 1000…0, 1000…1
         k = rng.randint(0, min(nd, 6))
@@ -199,6 +199,9 @@ def corpus():
         {"a": P(1, 0, 24), "b": P(1, 0, -24)},         # sum needs 49 digits
         {"a": P(1234567890123456789012345, 0, 24), "b": P(9876543210987654321098765, 0, -24)},
         {"a": P(-int("1" * 41), -40, 3), "b": P(1, 0, 0)},   # unary minus / abs rounded to 28 digits
+        {"a": dict(P(0, 0, 0), negzero=True), "b": P(0, 0, 3)},   # negative zero equals zero, in every respect
+        {"a": dict(P(0, -2, -9), negzero=True), "b": P(0, 0, -9)},
+        {"a": P(-15, -1, -3), "b": P(0, 0, 3)},               # (negative) x (zero)
     ]
 
 
